@@ -60,6 +60,42 @@ def radius_gate(ck, prog, fn, label):
                                  expected="a point is admitted (push reachable in the iteration) exactly when d < r or d == r",
                                  found=f"admitted under atoms {sorted(acc)} of sign(d - r) (n: d<r, z: d==r, p: d>r)")
     if n == 0:
+        # iterator form: .map(|..| (.., distance(from, p), ..)).filter(|(_, d, _)| d <= radius).collect()
+        from sa.prov import subst_upvars
+        for bb, t in b.calls():
+            f = t.get("f")
+            if not (f and f["path"].endswith("Iterator::filter") and len(t["args"]) == 2):
+                continue
+            recv, clo = cx.res.operand(t["args"][0]), cx.res.operand(t["args"][1])
+            if not (clo[0] == "agg" and clo[1].startswith("closure:")):
+                continue
+            cb = prog.get(clo[1][len("closure:"):])
+            if cb is None:
+                continue
+            cond = guards._cond(None, Resolver(cb).local(0))
+            if not cond:
+                continue
+            L, rel, R = (subst_upvars(prog, cb, cond[0]), cond[1], subst_upvars(prog, cb, cond[2]))
+            is_radius = lambda x: x[0] == "arg" and x[1] == 3 and x[2:] and x[2] == b.local_name(3) or (x[0] == "arg" and x[1] == 3 and b.local_name(3) in ("radius", "r", "eps"))
+            if is_radius(R):
+                drel = rel
+            elif is_radius(L):
+                drel = guards.FLIP[rel]
+            else:
+                continue
+            # the compared component comes from a distance computed upstream (a map closure calling Distance::distance)
+            up = [s for s in subterms(recv) if s[0] == "agg" and s[1].startswith("closure:")]
+            dist_up = any(any(ct.get("f") and ct["f"]["path"].endswith("Distance::distance") for _, ct in prog.get(u[1][len("closure:"):]).calls())
+                          for u in up if prog.get(u[1][len("closure:"):]) is not None)
+            if not dist_up:
+                continue
+            n += 1
+            if guards.ATOMS[drel] == frozenset("nz"):
+                ck.ok(rule, label, b.path, b.where(bb), "filter keeps an item iff d <= radius (iterator form)")
+            else:
+                ck.violation(rule, label, b.path, b.where(bb), expected="the filter keeps a point exactly when d < r or d == r",
+                             found=f"the filter keeps items with d {drel} radius")
+    if n == 0:
         ck.violation(rule, label, b.path, f"{b.loc[0]}:{b.loc[1]}", expected="a comparison of the distance with the radius argument",
                      found="none found")
 
